@@ -82,6 +82,7 @@ func c04Config(seed uint64, c int) (*SendScenario, []c04Pos) {
 		}
 	}
 	sc.Client.NoNoop = r.Chance(1, 4)
+	sc.Server.MultiLine = r.Chance(1, 4)
 	tlsActive := sc.Client.TLSPolicy != "none" && has(sc.Server.Caps, "STARTTLS") && !sc.Server.NoEHLO
 	capsAtAuth := sc.Server.Caps
 	if tlsActive && sc.Server.UseCapsTLS {
